@@ -42,6 +42,10 @@ def dirtyAll (fs : Fields) (names : List String) (tok : String) : Fields :=
 
 def resetField (fs : Fields) (f : String) : Fields := fun g => if g = f then [] else fs g
 
+/-- a write to a report field from another module: only the fields other modules really write -/
+def pokeField (external : List String) (fs : Fields) (f tok : String) : Fields :=
+  if external.contains f then dirty fs f tok else fs
+
 namespace Tables
 
 def names (T : Tables) : List String := T.initFields.map (·.1)
@@ -191,7 +195,7 @@ def snapshot (T : Tables) (w : World) : List Obs :=
 
 def step (T : Tables) (w : World) : Op → StepR
   | .call m tok => callMethod T w m tok
-  | .poke f tok => if T.externalDirties.contains f then ok { w with fields := dirty w.fields f tok } else ok w
+  | .poke f tok => ok { w with fields := pokeField T.externalDirties w.fields f tok }
   | .feedback c attrs trig tok =>
     let obs := attrs.map (fun a => Obs.attr c a (w.store.lookup c a)) ++
       [.field "groups" (w.fields "groups"), .field "hooks" (w.fields "hooks"),
@@ -218,7 +222,8 @@ def step (T : Tables) (w : World) : Op → StepR
     let obs := snapshot T w ++ probes.map (fun p => Obs.attr p.1 p.2 (w.store.lookup p.1 p.2))
     let r := callMethod T w "finalize_pools" "resolve"
     let w := r.w
-    ⟨{ w with fields := dirty (dirty w.fields "result" "resolve") "resolves" "resolve" }, obs, r.halt⟩
+    ⟨{ w with fields := pokeField T.externalDirties (pokeField T.externalDirties w.fields "result" "resolve")
+                                     "resolves" "resolve" }, obs, r.halt⟩
   | .clearReport => ok (w.clear T)
   | .crash e => ⟨w, [], some e⟩
 
@@ -268,7 +273,7 @@ def tableOk (T : Tables) : Bool :=
   T.names.all (fun f => exempt.contains f || T.resets f) &&
   (allDirtied T).all (fun f => T.names.contains f && !exempt.contains f) &&
   T.classDirties.all (fun p => p.1 == "register_tool" || !p.2.all (fun f => T.classAttrs.contains f)) &&
-  T.unknownSteps.isEmpty && T.externalNewFields.isEmpty &&
+  T.unknownSteps.isEmpty && T.externalNewFields.isEmpty && T.resets "_tool_data" &&
   T.restoresOverrides && T.lazyToolReset && T.backupPerClass && T.overrideRegisters &&
   T.restoreClearsPools && T.poolOverrideRegisters && T.envClearsFirst && T.tifaResetRebuilds
 
